@@ -750,11 +750,10 @@ func inspectSizeCheck(out *strings.Builder, check int) int {
 	return 2 * out.Len()
 }
 
-func (f Function) Unwrap(forceStringKeys bool) any {
-	if forceStringKeys {
-		return f.Inspect()
-	}
-	return f
+// The text of the function, for both kinds of unwrapping: the struct itself printed with %v (what str(f) and
+// sprintf("%v", f) did) shows internal pointers, different on every run.
+func (f Function) Unwrap(_ bool) any {
+	return f.Inspect()
 }
 func (f Function) Type() Type { return FUNC }
 
@@ -1280,7 +1279,7 @@ type Macro struct {
 	Env        *Environment
 }
 
-func (m Macro) Unwrap(_ bool) any { return m }
+func (m Macro) Unwrap(_ bool) any { return m.Inspect() }
 func (m Macro) Type() Type        { return MACRO }
 func (m Macro) Inspect() string {
 	out := strings.Builder{}
@@ -1412,7 +1411,7 @@ func (e Extension) Usage(out *strings.Builder) {
 	}
 }
 
-func (e Extension) Unwrap(_ bool) any { return e }
+func (e Extension) Unwrap(_ bool) any { return e.Inspect() }
 func (e Extension) Type() Type        { return EXTENSION }
 func (e Extension) Inspect() string {
 	out := strings.Builder{}
